@@ -178,10 +178,10 @@ def export_op(op: Any, num: _Numbering, labels: dict[Any, int]) -> dict:
     d["borrowed"] = bool(op.is_borrowed)
     d["error_kind"] = int(getattr(op, "error_kind", 0))
     if isinstance(op, O.Goto):
-        d["label"] = labels[op.label]
+        d["label"] = labels.get(op.label, -1)       # -1: target is not a block of the function
     elif isinstance(op, O.Branch):
         d.update(kind="IS_ERROR" if op.op == O.Branch.IS_ERROR else "BOOL", value=num.get(op.value),
-                 true=labels[op.true], false=labels[op.false], negated=bool(op.negated), rare=bool(op.rare),
+                 true=labels.get(op.true, -1), false=labels.get(op.false, -1), negated=bool(op.negated), rare=bool(op.rare),
                  traceback=op.traceback_entry is not None)
     elif isinstance(op, O.Return):
         d["value"] = num.get(op.value)
@@ -205,8 +205,11 @@ def export_op(op: Any, num: _Numbering, labels: dict[Any, int]) -> dict:
     elif isinstance(op, O.MethodCall):
         d.update(method=op.method, receiver_type=str(op.receiver_type), obj=num.get(op.obj))
         try:
-            sig = op.receiver_type.class_ir.method_sig(op.method)
-            d["arg_optional"] = _sig_optional(sig, len(op.args) + 1)[1:]
+            decl = op.receiver_type.class_ir.method_decl(op.method)
+            # emit_method_call passes obj / type(obj) / nothing first, then op.args: they bind to bound_sig
+            sig = decl.bound_sig if decl.bound_sig is not None else decl.sig
+            d["arg_optional"] = _sig_optional(sig, len(op.args))
+            d["method_kind"] = int(decl.kind)
         except Exception:
             d["arg_optional"] = [True] * len(op.args)
     elif isinstance(op, O.GetAttr):
@@ -250,8 +253,14 @@ def export_op(op: Any, num: _Numbering, labels: dict[Any, int]) -> dict:
     return d
 
 
-def export_func(fn: Any, module: str = "") -> dict:
-    """Plain-data dump of one FuncIR (blocks are numbered by position; entry = 0)."""
+def export_func(fn: Any, module: str = "", keepalive: Any = None) -> dict:
+    """Plain-data dump of one FuncIR (blocks are numbered by position; entry = 0).
+
+    `keepalive` (from the pre-refcount hook): the `KeepAlive(steal=True)` ops that the refcount pass consumed
+    and stripped.  Their effect (the listed values give up one reference, e.g. a tuple whose items were taken
+    over by `Unborrow`) is not visible in the final ops any more, so it is attached to the neighbouring op
+    that survived: `ka_steal_before` (the op that followed the KeepAlive) or `ka_steal_after` (the op that
+    preceded it).  `keepalive_lost` is set when neither anchor / a stolen value cannot be found any more."""
     num = _Numbering(fn)
     labels = {b: i for i, b in enumerate(fn.blocks)}
     args = []
@@ -268,7 +277,40 @@ def export_func(fn: Any, module: str = "") -> dict:
         eh = labels.get(b.error_handler) if b.error_handler is not None else None
         blocks.append({"label": labels[b], "error_handler": eh,
                        "ops": [export_op(op, num, labels) for op in b.ops]})
+    lost = keepalive == "error"
+    if keepalive and not lost:
+        steals, single_assign = keepalive
+        where = {}
+        present = set()
+        for bi, b in enumerate(fn.blocks):
+            for oi, op in enumerate(b.ops):
+                where[id(op)] = (bi, oi)
+                present.add(id(op))
+                for sv in op.sources():
+                    present.add(id(sv))
+                if hasattr(op, "dest"):
+                    present.add(id(op.dest))
+        for srcs, prev, nxt in steals:
+            ids = []
+            for v in srcs:
+                hops = 0
+                while id(v) not in present and v in single_assign and hops < 50:
+                    v = single_assign[v]
+                    hops += 1
+                if id(v) not in present:
+                    lost = True
+                    continue
+                ids.append(num.get(v))
+            if nxt is not None and id(nxt) in where:
+                bi, oi = where[id(nxt)]
+                blocks[bi]["ops"][oi].setdefault("ka_steal_before", []).extend(ids)
+            elif prev is not None and id(prev) in where:
+                bi, oi = where[id(prev)]
+                blocks[bi]["ops"][oi].setdefault("ka_steal_after", []).extend(ids)
+            else:
+                lost = True
     return {
+        "keepalive_lost": lost,
         "module": module, "name": fn.name, "class_name": fn.class_name, "fullname": fn.fullname,
         "shortname": fn.decl.shortname, "line": fn.line, "kind": int(fn.decl.kind),
         "is_generator": bool(getattr(fn.decl, "is_generator", False)),
@@ -325,7 +367,28 @@ class CompileFailure(Exception):
     pass
 
 
-_pre_snapshots: dict[int, dict] | None = None
+_side: dict[str, Any] | None = None     # {"pre": {id(fn): dump} | None, "keepalive": {id(fn): …}} while compiling
+
+
+def _keepalive_steals(fn: Any) -> Any:
+    """([(stolen values, previous surviving op, next surviving op)], {register assigned exactly once: its source})."""
+    from mypyc.ir import ops as O
+    steals = []
+    counts: dict[Any, int] = {}
+    srcs: dict[Any, Any] = {}
+    for a in fn.arg_regs:
+        counts[a] = 1
+    for b in fn.blocks:
+        ops = b.ops
+        for i, op in enumerate(ops):
+            if isinstance(op, O.Assign):
+                counts[op.dest] = counts.get(op.dest, 0) + 1
+                srcs[op.dest] = op.src
+            if isinstance(op, O.KeepAlive) and op.steal:
+                prev = next((o for o in reversed(ops[:i]) if not isinstance(o, O.KeepAlive)), None)
+                nxt = next((o for o in ops[i + 1:] if not isinstance(o, O.KeepAlive)), None)
+                steals.append((list(op.src), prev, nxt))
+    return steals, {r: v for r, v in srcs.items() if counts.get(r) == 1}
 
 
 def _install_pre_hook() -> None:
@@ -336,11 +399,16 @@ def _install_pre_hook() -> None:
     real = em.insert_ref_count_opcodes
 
     def wrapper(fn: Any) -> None:
-        if _pre_snapshots is not None:
+        if _side is not None:
+            if _side["pre"] is not None:
+                try:
+                    _side["pre"][id(fn)] = export_func(fn)
+                except Exception as e:  # an op the exporter cannot describe: keep going, mark it
+                    _side["pre"][id(fn)] = {"export_error": f"{type(e).__name__}: {e}"}
             try:
-                _pre_snapshots[id(fn)] = export_func(fn)
-            except Exception as e:  # an op the exporter cannot describe: keep going, mark it
-                _pre_snapshots[id(fn)] = {"export_error": f"{type(e).__name__}: {e}"}
+                _side["keepalive"][id(fn)] = _keepalive_steals(fn)
+            except Exception:
+                _side["keepalive"][id(fn)] = "error"     # resolves to keepalive_lost
         real(fn)
 
     wrapper._verif_wrapped = True  # type: ignore[attr-defined]
@@ -357,14 +425,15 @@ def fixture_lib_dir(workdir: str, repo: str = REPO) -> str:
 
 
 def compile_to_ir(files: dict[str, str], compiled: list[str], workdir: str, *, fixtures: bool = True,
-                  want_pre: bool = True, repo: str = REPO, cache_dir: str | None = None) -> tuple[Any, dict[int, dict]]:
+                  want_pre: bool = True, repo: str = REPO, cache_dir: str | None = None) -> tuple[Any, dict[str, Any]]:
     """Type-check `files` (relative path -> text, written under `workdir`) and run the mypyc IR pipeline on
-    the modules named in `compiled`.  Returns (ModuleIRs, {id(FuncIR): pre-refcount dump}).
+    the modules named in `compiled`.  Returns (ModuleIRs, side) with side = {"pre": {id(FuncIR): pre-refcount
+    dump} or None, "keepalive": {id(FuncIR): consumed KeepAlive(steal) ops}}; pass both to `export_modules`.
 
     fixtures=True: builtins = mypyc's `fixtures/ir.py`, typing etc. from mypy's `lib-stub` (as the mypyc test
     suite does); fixtures=False: real typeshed.
     Raises CompileFailure when mypy or mypyc reports errors or mypyc bails out in any way."""
-    global _pre_snapshots
+    global _side
     from mypy import build
     from mypy.errors import CompileError
     from mypy.options import Options
@@ -415,9 +484,9 @@ def compile_to_ir(files: dict[str, str], compiled: list[str], workdir: str, *, f
             rel = m.replace(".", "/") + "/__init__.py"
         sources.append(build.BuildSource(os.path.join(workdir, rel), m, None))
         o.per_module_options.setdefault(m, {})["mypyc"] = True
-    if want_pre:
-        _install_pre_hook()
-    _pre_snapshots = {} if want_pre else None
+    _install_pre_hook()
+    side: dict[str, Any] = {"pre": {} if want_pre else None, "keepalive": {}}
+    _side = side
     cwd = os.getcwd()
     result = None
     try:
@@ -439,10 +508,10 @@ def compile_to_ir(files: dict[str, str], compiled: list[str], workdir: str, *, f
             if isinstance(e, KeyboardInterrupt):
                 raise
             raise CompileFailure(f"{type(e).__name__}: {str(e)[:200]}")
-        return mods, (_pre_snapshots or {})
+        return mods, side
     finally:
         os.chdir(cwd)
-        _pre_snapshots = None
+        _side = None
         if result is not None:
             try:
                 result.manager.metastore.close()
@@ -450,7 +519,7 @@ def compile_to_ir(files: dict[str, str], compiled: list[str], workdir: str, *, f
                 pass
 
 
-def compile_case(case: Case, workdir: str, **kw: Any) -> tuple[Any, dict[int, dict]]:
+def compile_case(case: Case, workdir: str, **kw: Any) -> tuple[Any, dict[str, Any]]:
     """Compile one test-data case the way test_run.py does: `native` + `other*` modules."""
     files = {"native.py": case.main}
     compiled = ["native"]
@@ -471,14 +540,16 @@ def compile_case(case: Case, workdir: str, **kw: Any) -> tuple[Any, dict[int, di
     return compile_to_ir(files, compiled, workdir, **kw)
 
 
-def export_modules(mods: Any, pre: dict[int, dict]) -> list[dict]:
+def export_modules(mods: Any, side: dict[str, Any]) -> list[dict]:
     """[{module, function dumps: final + pre}] for every FuncIR of every compiled module."""
+    pre = side.get("pre") or {}
+    keepalives = side.get("keepalive") or {}
     out = []
     for mname, m in mods.items():
         for fn in m.functions:
             rec: dict[str, Any] = {"module": mname, "fullname": fn.fullname}
             try:
-                rec["final"] = export_func(fn, mname)
+                rec["final"] = export_func(fn, mname, keepalives.get(id(fn)))
             except Exception as e:
                 rec["final"] = {"export_error": f"{type(e).__name__}: {e}", "fullname": fn.fullname}
             p = pre.get(id(fn))
